@@ -105,6 +105,8 @@ struct ClientWrite {
     event_ids: Vec<Uuid>,
     node: usize,
     result: Option<Result<AppendResult, String>>,
+    /// global order stamp of the moment the client saw the acknowledgement
+    ack_order: Option<u64>,
 }
 
 /// one event as stored on a node
@@ -230,6 +232,7 @@ impl Checker {
                 }
             }
         }
+        let stored = sim::confirmations_stored();
         // C11: every acknowledged write sits at its sequence on a quorum of nodes, with a quorum
         // count on its coordinator, now and at every later check
         for w in writes {
@@ -255,6 +258,16 @@ impl Checker {
                 }
             }
             self.acked_seen.insert(w.txn_id, (w.partition, first, last));
+            // the quorum count is stored (on the coordinator: replicas only learn it afterwards)
+            // before the client sees the acknowledgement
+            if let Some(ack) = w.ack_order {
+                let hi = (w.txn_id.as_u128() >> 64) as u64;
+                let lo = (w.txn_id.as_u128() as u64) & !0xff;
+                let stored_before = stored.iter().any(|(o, h, l, c)| *h == hi && *l == lo && (*c as usize) >= self.quorum && *o < ack);
+                if !stored_before {
+                    self.violation("C11", "acknowledged-before-quorum-count-stored", "coordinator-log", format!("{when}: transaction {} was acknowledged to its client before any node had stored a quorum confirmation count for it", w.txn_id));
+                }
+            }
             if holders < self.quorum {
                 self.violation("C11", "acknowledged-write-not-on-quorum", "replica-logs", format!("{when}: transaction {} was acknowledged at partition {} sequences {first}..={last} but only {holders} node(s) store it there (quorum {})", w.txn_id, w.partition, self.quorum));
             } else if coordinator_ok == Some(false) || !any_quorum_count {
@@ -334,7 +347,7 @@ fn run(prop: String, plan: C10Plan) -> RunOutcome {
                 let txn = Transaction::new(pk, partition, evs).unwrap().with_transaction_id(txn_id);
                 let slot = {
                     let mut w = writes.lock().unwrap();
-                    w.push(ClientWrite { txn_id, partition, event_ids, node: *node, result: None });
+                    w.push(ClientWrite { txn_id, partition, event_ids, node: *node, result: None, ack_order: None });
                     w.len() - 1
                 };
                 if let Some(actor) = cluster.nodes[*node].actor.clone() {
@@ -342,7 +355,11 @@ fn run(prop: String, plan: C10Plan) -> RunOutcome {
                     let done = done.clone();
                     cluster.spawn_on(*node, async move {
                         let res = actor.ask(ExecuteTransaction::new(txn)).await;
-                        writes.lock().unwrap()[slot].result = Some(res.map_err(|e| e.to_string()));
+                        let order = sim::next_order();
+                        let mut w = writes.lock().unwrap();
+                        w[slot].ack_order = Some(order);
+                        w[slot].result = Some(res.map_err(|e| e.to_string()));
+                        drop(w);
                         done.fetch_add(1, Ordering::SeqCst);
                     });
                 } else {
